@@ -44,7 +44,7 @@ CLAIMS = {
  "C19": ("Formatter output functions: escapeText equals a recursive spec for all strings (outside complete mustaches & < > become references, mustaches are copied byte for byte); renderOpenTag writes every attribute value between double quotes with its own double quotes as &quot; (exact recursive spec over the attribute list).",
          "FormatAttr (regexp) is a trusted contract; idempotence and parse-equivalence of whole documents are relations through the external HTML5 parser and are not decided; front-matter/doctype/raw-text clauses not under contract."),
  "C17": ("Stack as a scope stack: Lookup = innermost binding else root field (recursive spec lookupIdx, loop invariant), Set touches only the top scope, Push/Pop restore the scope list, Pop keeps >= 1 scope, EnvMap agrees with Lookup, Copy is fresh and equal; object invariant len(pooled)==len(stack).",
-         "path resolution through reflection (Resolve/resolveStep) is outside the subset: not claimed here; ResolveValue/PopulateStructFields are trusted stubs."),
+         "path resolution through reflection (Resolve/resolveStep/parsePath) is outside the verifier's subset: it is covered only by a BOUNDED stand-in (bounded/C11+C17__resolve__root.go.txt: 64 root values of depth <= 2 x 12 segments x 4 path syntaxes x <= 2 steps = 150 528 paths against a reflection-free oracle, run on the real code through go test -overlay), reported under coverage.bounded and never counted as proved; ResolveValue/PopulateStructFields are trusted stubs."),
 }
 NA = {
  "C20": "equivalence with an external reference renderer (goldmark) over all documents: no contract on a repository function can express the oracle (DESIGN.md §8)",
